@@ -32,6 +32,7 @@ EXTENDS CCEval, ProgsIO   \* ProgsIO defines Progs, the sequence of program reco
 CONSTANTS Mode,       \* "single" | "three"
           Sample,     \* FALSE: every choice is explored; TRUE: every choice is one random draw
           Runs,       \* number of independent runs per program (1 unless Sample)
+          ExhaustInputs, \* TRUE: plaintext inputs are always enumerated, even when Sample draws everything else
           ViewRoots   \* TRUE: every message is demanded (its receiver's view contains it) -- used by the
                       \* privacy property; FALSE: only what the outputs depend on is demanded
 
@@ -125,6 +126,7 @@ Expected(i, xs) == EvalPlain(S(i), SrcPlanT[i], xs)
 
 ---------------------------------------------------------------------------
 Pick(SS) == IF Sample THEN {RandomElement(SS)} ELSE SS
+PickIn(SS) == IF Sample /\ ~ExhaustInputs THEN {RandomElement(SS)} ELSE SS
 
 Init ==
   /\ run \in 1..Runs
@@ -152,24 +154,24 @@ InputChoices(i, n) ==
       t == G[n].ty
       pt == SrcInputTypes(i)[k]
       needers == {q \in Parties : LocalNeeded(i, q, n)}
-  IN IF o = "pub" THEN {<<v, [p \in Parties |-> IF p \in needers THEN v ELSE "na"]>> : v \in Pick(AllValues(pt))}
+  IN IF o = "pub" THEN {<<v, [p \in Parties |-> IF p \in needers THEN v ELSE "na"]>> : v \in PickIn(AllValues(pt))}
      ELSE IF o = "sh"
      THEN \* t is a 3-tuple of the plaintext type; shares s0, s1, s2 = v - s0 - s1;
           \* party p holds real components p and p+1 and junk in component p+2
           IF Mode = "single"
           THEN {<<v, [p \in Parties |-> <<s0, s1, SubV(SubV(v, s0, pt), s1, pt)>>]>> :
-                   v \in Pick(AllValues(pt)), s0 \in Pick(AllValues(pt)), s1 \in Pick(AllValues(pt))}
+                   v \in PickIn(AllValues(pt)), s0 \in Pick(AllValues(pt)), s1 \in Pick(AllValues(pt))}
           ELSE {<<v, [p \in Parties |->
                    IF p \notin needers THEN "na"
                    ELSE LET sh == <<s0, s1, SubV(SubV(v, s0, pt), s1, pt)>>
                         IN [c \in 1..3 |-> IF c - 1 = (p + 2) % 3 THEN junk[p] ELSE sh[c]]]>> :
-                   v \in Pick(AllValues(pt)), s0 \in Pick(AllValues(pt)), s1 \in Pick(AllValues(pt)),
+                   v \in PickIn(AllValues(pt)), s0 \in Pick(AllValues(pt)), s1 \in Pick(AllValues(pt)),
                    junk \in Pick([needers -> AllValues(pt)])}
      ELSE LET ow == OwnerParty(o)
               junkers == IF Mode = "single" THEN {} ELSE needers \ {ow}
           IN {<<v, [p \in Parties |-> IF p \notin needers THEN "na"
                                       ELSE IF Mode = "single" \/ p = ow THEN v ELSE junk[p]]>> :
-                v \in Pick(AllValues(pt)), junk \in Pick([junkers -> AllValues(t)])}
+                v \in PickIn(AllValues(pt)), junk \in Pick([junkers -> AllValues(t)])}
 
 Deliver(G, n, loc) == LET who == Who(G, n)  l == TLCEval(loc) IN TLCEval([p \in Parties |-> l[who[p]]])
 
@@ -261,4 +263,41 @@ C02Three ==
              IN /\ \A p \in Parties : sh(p, (p + 1) % 3) = sh((p + 1) % 3, (p + 1) % 3)
                 /\ AddV(AddV(sh(0, 0), sh(1, 1), ResultType), sh(2, 2), ResultType) = e
 
+---------------------------------------------------------------------------
+(* C05: secure truncation.  The source program ends in Truncate(scale) of one value.                 *)
+(* Division by 2^k (TruncateMPC2K): for inputs in the documented range the result is the floor       *)
+(* quotient or that quotient plus one.  General divisor (TruncateMPC, signed types): the result is   *)
+(* within one unit of the quotient of a + k*modulus for k in {-1,0,1}; k # 0 is the documented       *)
+(* wrap-around of the additive shares (mpc_truncate.rs, error type 2).                               *)
+IsPow2(n) == \E k \in 0..30 : n = Pow2(k)
+SignedOf(v, m, sg) == IF sg /\ v >= m \div 2 THEN v - m ELSE v
+FloorDiv(a, d) == IF a >= 0 THEN a \div d ELSE 0 - ((0 - a + d - 1) \div d)
+TruncDiv(a, d) == IF a >= 0 THEN a \div d ELSE 0 - ((0 - a) \div d)
+Abs(a) == IF a >= 0 THEN a ELSE 0 - a
+\* representative of (a - b) modulo m that is closest to zero
+PosMod(a, m) == ((a % m) + m) % m
+CenteredDiff(a, b, m) == LET df == PosMod(a - b, m) IN IF df >= m \div 2 THEN df - m ELSE df
+
+TruncOutcomeOK(a, o, scale, m, sg) ==
+  \* a: signed reading of the plaintext value; o: residue produced by the protocol
+  IF IsPow2(scale)
+  THEN LET inrange == IF sg THEN a >= 0 - m \div 4 /\ a < m \div 4 ELSE a >= 0 /\ a < m \div 2
+       IN inrange => CenteredDiff(o, FloorDiv(a, scale), m) \in {0, 1}
+  ELSE \E k \in {-1, 0, 1} : Abs(CenteredDiff(o, TruncDiv(a + k * m, scale), m)) <= 1
+
+C05Trunc ==
+  (Mode = "three" /\ Finished) =>
+    LET G == M(g)  src == S(g)  so == OutNode(src)
+        scale == src[so].scale
+        st == src[so].ty.st
+        m == Modulus(st)  sg == IsSigned(st)
+        pre == EvalFrom(src, SrcPlanT[g], 1, <<>>, x)[src[so].deps[1]]
+        outs == Progs[g].outs
+        d == SharedOutDeps(G)
+        shv(p, c) == IF d # <<>> THEN store[d[c + 1]][p] ELSE store[OutNode(G)][p][c + 1]
+        revealed(p) == IF Len(outs) > 0 THEN store[OutNode(G)][p]
+                       ELSE AddV(AddV(shv(0, 0), shv(1, 1), ResultType), shv(2, 2), ResultType)
+        who == IF Len(outs) > 0 THEN {outs[k] : k \in 1..Len(outs)} ELSE {0}
+    IN \A p \in who : \A e \in 1..Len(pre) :
+         TruncOutcomeOK(SignedOf(pre[e], m, sg), revealed(p)[e], scale, m, sg)
 =============================================================================
